@@ -415,8 +415,21 @@ def _kept_method(Context):
         return f"{a}|{b}"
 
 
+def _redeclared_globals(Context):
+    """a later evaluation that declares a variable again (var x; / a var in a branch that does not run / inside eval or Function) keeps what earlier evaluations and the embedder stored"""
+    c = Context()
+    c.eval("var x = 41; var keep = {k: 1}; function fn() { return 7 }")
+    c.set("cfg", 5)
+    out = [c.eval("var x; x"), c.eval("if (false) { var cfg = 0 } cfg"), c.eval("var keep; keep.k"), c.eval("(0, eval)('var x; x')"), c.eval("eval('if (false) { var keep = 0 } keep.k')"),
+           c.eval("var fn; typeof fn"), c.eval("for (var x in {}) { } x"), c.eval("try { } catch (e) { var cfg } cfg"), c.get("x"), c.get("cfg")]
+    c2 = Context()
+    out.append(c2.eval("typeof x + typeof cfg"))
+    return out
+
+
 PROBES_C12 = [
     ("method-value-kept-across-evaluations", _kept_method, "1,2,3|caught 5"),
+    ("redeclared-globals-keep-their-values", _redeclared_globals, [41, 5, 1, 41, 1, "function", 41, 5, 41, 5, "undefinedundefined"]),
 ]
 groups.register_probes("C12", PROBES_C12)
 
